@@ -237,6 +237,11 @@ func (r *Recorder) AddFuzzExecs(n int64) {
 	r.mu.Unlock()
 }
 
+// FuzzMode is set by the native fuzz targets that drive a rapid property through rapid.MakeFuzz: a violation then
+// carries its replay kind and the whole case (JSON) in its message, which is all that survives a fuzz worker process;
+// the driver turns those lines into a replay file.
+var FuzzMode bool
+
 // Fail records a failure. It returns true when the failure is a VIOLATION (not a listed
 // known finding); the caller then fails the test / rapid property.
 func (r *Recorder) Fail(f *Fail, c interface{}) bool {
@@ -245,6 +250,10 @@ func (r *Recorder) Fail(f *Fail, c interface{}) bool {
 		raw = []byte(fmt.Sprintf("%q", fmt.Sprintf("%#v", c)))
 	}
 	what, isKnown := IsKnown(r.Prop, f.Sig)
+	if FuzzMode && !isKnown && !strings.Contains(f.Msg, "\nVIOLATION-SIG ") {
+		one := strings.Join(strings.Fields(f.Msg), " ")
+		f.Msg += fmt.Sprintf("\nVIOLATION-KIND %s\nVIOLATION-SIG %s :: %s :: %s\n", r.Kind, f.Sig, one, raw)
+	}
 	r.mu.Lock()
 	defer r.mu.Unlock()
 	old := r.failures[f.Sig]
